@@ -6,8 +6,9 @@ From Verif Require Import Prelude HelloKx HelloKxProofs.
 
 (* For every interleaving of any length of: either router (or both at once) starting a setup;
    requests and responses delivered in any order the receivers accept, or lost; duplicates
-   (rejected like older frames); "no encryption keys" errors; hello states expiring and setups
-   being retried at points where no setup frame is in flight — whenever no setup frame is in
+   (rejected like older frames); "no encryption keys" errors; either router losing its keys and hello
+   state (restart, idle session evicted), hello states expiring and setups being retried at
+   points where no setup frame is in flight — whenever no setup frame is in
    flight, the routers do not both consider encryption established with different keys. *)
 Theorem C14_kx_safe : forall s, reach false s -> safe s = true.
 Proof. exact kx_safe. Qed.
